@@ -23,6 +23,9 @@ mod oracle;
 #[cfg(feature = "serde")]
 mod serialize;
 
+#[cfg(feature = "verif-hooks")]
+pub mod verif_hooks;
+
 pub use crate::date::{Date, Month, WeekDay};
 pub use crate::error::Error;
 pub use crate::format::Formatter;
